@@ -45,7 +45,11 @@ fn build(bits: &[bool], dup: Option<&[usize]>) -> Result<Structs, String> {
     let mut bv = mk::bv_set_bit(bits);
     mk::enable_all(&mut bv);
     let sv = mk::sparse_set(n, &m.ones)?;
-    let rv = mk::rl_runs(n, &m.runs())?;
+    // The run-length vector comes from one of four builder decompositions of the same runs (chosen by the content).
+    let key = crate::util::hash64(&m.ones.iter().map(|x| *x as u64).chain([n as u64]).collect::<Vec<u64>>());
+    let mut route_rng = crate::util::Rng::new(key);
+    let decomp = [crate::drivers::c03::Decomp::Maximal, crate::drivers::c03::Decomp::Split, crate::drivers::c03::Decomp::Bits, crate::drivers::c03::Decomp::SplitWithSetLen][(key % 4) as usize];
+    let rv = crate::drivers::c03::build(n, &m.runs(), decomp, &mut route_rng)?;
     let ms = match dup {
         Some(values) => Some((mk::multiset_set(n, values)?, values.to_vec())),
         None => None,
